@@ -510,7 +510,7 @@ def conn_property(pid, tier, seed, models, drivers, assumptions, design_ref, ext
         sres.append(sr)
         if sr["crashes"]:
             raise V.ToolError("server driver %s in domain %s" % (sr["crashes"][0]["how"], sr["domain"]))
-        bad = {m["hist"]: m for m in sr["mismatches"] if "hist" in m}
+        bad = by_history(sr["mismatches"], SRV_PROJ[pid])
         for hid, evs in hist_events(sr["trace"]):
             evals += 1
             distinct += 1
@@ -612,6 +612,18 @@ SRV_PROJ = {
     "C11": r"^(bytes:|yield:)",
     "C13": r"^(bytes:|yield:|ready:stall)",
 }
+
+def by_history(mismatches, proj):
+    """history id -> the mismatch to judge: a history may carry two (its first divergence and the ownership
+    judgement at its end); the one inside the property's projection wins, else the first."""
+    out = {}
+    for m in mismatches:
+        if "hist" not in m:
+            continue
+        cur = out.get(m["hist"])
+        if cur is None or (not re.search(proj, cur.get("kind", "?")) and re.search(proj, m.get("kind", "?"))):
+            out[m["hist"]] = m
+    return out
 
 def hist_events(trace_path):
     cur, hid = [], None
@@ -856,7 +868,7 @@ def srv_property(pid, tier, seed, models, drivers, assumptions, design_ref, proo
         selftest = binding_selftest("srv", "Trace_Srv.tla", srv_cfg(c0["kind"]), c0["trace"], pid, '"e":"reset"')
     evals, distinct, samples, total_div = 0, set(), [], 0
     for cr in cres:
-        bad = {m["hist"]: m for m in cr["mismatches"] if "hist" in m}
+        bad = by_history(cr["mismatches"], SRV_PROJ[pid])
         for hid, evs in hist_events(cr["trace"]):
             evals += 1
             h = hashlib.sha256(json.dumps([[e.get(k) for k in ("e", "c", "bytes", "tag", "state")] for e in evs]).encode()).hexdigest()
